@@ -17,6 +17,8 @@ def load_prop(pid):
 def run_prop(pid, tier, seed, repo=None, quiet=False):
     mod = load_prop(pid)
     keys = mod.CONFIGS[tier]
+    if os.environ.get("VERIF_CONFIGS"):  # development aid: analyse other configurations than the registered ones
+        keys = os.environ["VERIF_CONFIGS"].split(",")
     ctx = report.Ctx(pid, tier, seed)
     facts, failures = engine.load_configs(keys, repo)
     ctx.configs = sorted(facts)
